@@ -71,3 +71,21 @@ Theorem C04_create_failure_atomic : forall W M HT can_transfer transfer balance_
   xw s' = xw s \/ xw s' = world_after_failed_create W get_nonce set_nonce acl_add is_berlin (xw s) caller address.
 Proof. exact create_failure_atomic. Qed.
 Print Assumptions C04_create_failure_atomic.
+
+From Verif Require Import Model.ScriptInst Proofs.Exec_examples.
+(** non-vacuity: a concrete, non-trivial execution meets the premises of the frame theorems above (a top-level CALL with
+    value that stores, CALLs with value through a pre join point into a contract that stores and then halts exceptionally,
+    and stops): it terminates within the fuel, records two nodes, and the failed inner frame leaves no trace in the world *)
+Example C04_premises_met_by_a_concrete_run :
+  exists r s', ex_call true true 50 0 ex_script_A ex_caller ex_A [] 100000 7 ex_state = Some (r, s') /\
+    r_err r = None /\ length (calls (tc (xt s'))) = 2%nat /\
+    s_balance (xw s') ex_A = 7 /\ s_balance (xw s') ex_B = 0 /\
+    aget eq_nn (sw_stor (xw s')) (ex_A, 1) = Some 5 /\ aget eq_nn (sw_stor (xw s')) (ex_B, 2) = None /\
+    (15 <= length (xe s'))%nat.
+Proof. exact ex_top_run. Qed.
+
+Example C04_premises_met_by_a_failing_frame :
+  exists r s', ex_call true true 50 1 ex_script_B ex_A ex_B [1; 2] 20000 3
+                       {| xw := s_transfer ex_world ex_caller ex_A 7; xt := tracer_empty; xe := []; xn := O |} = Some (r, s') /\
+    r_err r <> None /\ r_gas r = 0.
+Proof. exact ex_failing_frame. Qed.
